@@ -1,4 +1,5 @@
 """C09 — WhenAll / Join complete once, at the right moment, with inputs in input order (DESIGN.md §3 C09)."""
+from vlib import apiprobe
 from vlib import conc
 
 from . import _when
@@ -19,6 +20,7 @@ def run(res, tier):
         'values are abstract (identified by the index of the input they came from); moves/copies of payloads are checked by the '
         'harness with an instrumented value type, not by the model',
     ]
+    apiprobe.stage(res, 'C09', tier)  # every public form of the area still instantiates (vlib/apiprobe.py, harness/api_probe_*.cpp)
     conc.concurrent_check(
         res, 'C09', tier, 'c09.cpp', 'when', RULES,
         quick_args=['--family', 'all', '--mode', 'dfs', '--pb', '2', '--pb3', '2', '--wb', '1'],
@@ -30,4 +32,7 @@ def run(res, tier):
 
 
 def replay(path):
+    r = apiprobe.replay(path)
+    if r is not None:
+        return r
     return _when.replay('C09', path)
